@@ -172,13 +172,13 @@ def expected : List (String × List String) := [
   ("governance_ExecuteTx", ["transactions.go:submitProposal:err @ case proposalContent.ChangeParameters != nil",
      "transactions.go:submitProposal:governance.ErrInvalidArgument @ res == nil",
      "transactions.go:submitProposal:fmt.Errorf(governance: failed to get next proposal identifi)"]),
-  ("roothash_ExecuteTx", ["transactions.go:executorCommit:err",
-     "slashing.go:onEvidenceRuntimeEquivocation:fmt.Errorf(cometbft/roothash: failed to get node by id %s: )",
-     "slashing.go:onEvidenceRuntimeEquivocation:fmt.Errorf(cometbft/roothash: failed to lookup node: %w)",
-     "slashing.go:distributeSlashedFunds:fmt.Errorf(cometbft/roothash: runtimeAccReward.Mul: %w)",
-     "slashing.go:distributeSlashedFunds:fmt.Errorf(cometbft/roothash: runtimeAccReward.Quo(100): %w)",
-     "slashing.go:distributeSlashedFunds:fmt.Errorf(cometbft/roothash: remainingReward.Sub(runtimeAc)",
-     "slashing.go:distributeSlashedFunds:fmt.Errorf(cometbft/roothash: remainingReward.Quo(len(discr)"]),
+  -- Until /repo fix 39f3084 (see DESIGN 9.3) this root also listed six sites of slashing.go reached from
+  -- `submitEvidence` after `SetEvidenceHash` had gone to layer 0; the first of them ("failed to get node by
+  -- id") had been argued unreachable here and IS reachable: equivocation evidence signed by a key that is not
+  -- a registered node is well-formed, so the failed transaction left the evidence hash behind (found by a
+  -- seeding agent reading the code, confirmed by txdrv, variant `unknown-node`).  The handler now stores the
+  -- hash and slashes inside one `NewTransaction` overlay and the analysis reports the sites no more.
+  ("roothash_ExecuteTx", ["transactions.go:executorCommit:err"]),
   ("vault_ExecuteTx", ["transactions.go:authorizeAction:err @ case api.IsUnavailableStateError(err)",
      "action.go:executeAction:err @ case action.UpdateWithdrawPolicy != nil",
      "action.go:executeAction:err @ case action.UpdateAuthority != nil",
